@@ -138,4 +138,57 @@ def runX : St → List OpX → St × List Out
       let r2 := runX r1.1 ops
       (r2.1, r1.2 :: r2.2)
 
+/-! ### container kinds (T2 only; see `Spec.AliasSem.OpY`)
+
+  A Python tuple holding mutable elements is a sequence object with `isMut = false` (not editable:
+  `append` → AttributeError, item assignment → TypeError) whose references are mutable objects.
+  `CTransaction.__init__`, `CTransaction.from_tx` and `CMutableTransaction.from_tx` rebuild `vin`/`vout`
+  element by element whatever kind of sequence they are given (`planClone`: `.seq .ins/.outs` are
+  `rebuilt`), so such a tuple never ends up inside an immutable transaction.
+  (`InvX` of Proofs/HeapX1 does not cover heaps with such tuples; these operations are tied by T2 only.) -/
+
+def stepY (s : St) : OpY → St × Out
+  | .x op => stepX s op
+  | .mkSeq outs isList items =>
+      match mapO s.target items with
+      | none => (s.skip, .badRef)
+      | some as =>
+        let ek := if outs then 2 else 1
+        if as.any (fun a => kindAt s.heap a != some ek) then (s.skip, .na)
+        else
+          let a := alloc s.heap { isMut := isList, sc := .seq (if outs then .outs else .ins), refs := as }
+          (s.bind a.1 (some a.2), .created)
+  | .newCTxFrom vin vout lock ver wit =>
+      match s.target vin, s.target vout, wit.map s.target with
+      | some avi, some avo, w =>
+        if kindAt s.heap avi ≠ some 8 || kindAt s.heap avo ≠ some 9 then (s.skip, .na)
+        else
+          let wa : Option (Option Addr) := match w with
+            | none => some (some defaultWit)
+            | some none => none
+            | some (some aw) => if kindAt s.heap aw ≠ some 4 then some none else some (some aw)
+          match wa with
+          | none => (s.skip, .badRef)
+          | some none => (s.skip, .na)
+          | some (some aw) =>
+            if lock ≤ 0xffffffff then
+              match s.heap[avi]?, s.heap[avo]? with
+              | some li, some lo =>
+                -- tuple(CTxIn.from_txin(txin) for txin in vin): the constructor of a copied element validates
+                let ok := li.refs.all fun a =>
+                  match s.heap[a]?, absVal s.heap a with
+                  | some o, some (.txin i) => !o.isMut || validTxIn i
+                  | _, _ => true
+                if !ok then (s.skip, .err .valueerr)
+                else
+                  match mapO (planClone false D s.heap) li.refs, mapO (planClone false D s.heap) lo.refs with
+                  | some pi, some po =>
+                    let a := allocPlan s.heap (.node false (.tx ver lock)
+                      [.node false (.seq .ins) pi, .node false (.seq .outs) po, .ref aw])
+                    (s.bind a.1 (some a.2), .created)
+                  | _, _ => (s.skip, .badRef)
+              | _, _ => (s.skip, .badRef)
+            else (s.skip, .err .valueerr)
+      | _, _, _ => (s.skip, .badRef)
+
 end BtcVerif.Model.HeapX
